@@ -476,8 +476,10 @@ MonTransfer ==
 \* An error sends the monitor back to recreateSession (contract) or is overwritten (as-is).
 \* Subscription ids in this model are client object identities (a recreated subscription keeps
 \* its identity although the server assigns a new id).
-RsRep == IF restored /\ ~Dev_RestoreNoResume THEN subs ELSE toRepublish
-RsRec == toRecreate \cap subs
+\* after a restored session (contract) every registered subscription is republished; a server
+\* without Republish (gopcua server) makes the republish fail and the subscription is re-created
+RsRep == IF restored /\ ~Dev_RestoreNoResume THEN (IF SrvTransfers THEN subs ELSE {}) ELSE toRepublish
+RsRec == IF restored /\ ~Dev_RestoreNoResume THEN (IF SrvTransfers THEN {} ELSE subs) ELSE toRecreate \cap subs
 RsOk  == SessOk /\ ~ctxDone
 
 RsFinish ==
